@@ -46,6 +46,14 @@ CHECKS["C02"] = {
     "technique": "TLA+ protocol spec with reader actors model-checked by TLC (with action-coverage anti-vacuity); trace validation of real scheduled executions of every read API",
 }
 
+CHECKS["C04"] = {
+    "category": "model_checking",
+    "text": "TLC explores the protocol model with a Fault action enabled at every step of append / delete / expire / delete-snapshot commits (exception before effect; effect-then-exception at the object-storage pointer write; asynchronous KeyboardInterrupt/SystemExit at every boundary), single and double faults, context-manager and explicit call styles, local / CAS / non-CAS backends, checking ReachablePresent, AckedOnce (ok => reflected once, error => not at all, ambiguous/interrupted => at most once), NoDeleteOnAmbiguous, Serializable. Binding: on the real library every scheduling point of every operation kind is failed once (OSError before effect, KeyboardInterrupt, SystemExit), alone and with a racing committer; TLC validates each trace against the same actions, so the error path the code takes (what it deletes, keeps and reports) must be the model's, and every invariant is evaluated after every event including the follow-up commit.",
+    "design_ref": "DESIGN.md 6/C04",
+    "note": "Trusted: as C01. Asynchronous exceptions are delivered at scheduling points only. After-effect faults on object storage are model-checked; on the real code they are exercised against the in-memory S3 (see C08). Lock-release failures are modelled as swallowed. Bounded: one victim operation + follow-up, budget <=2 faults.",
+    "technique": "TLA+ protocol spec with fault actions model-checked by TLC; trace validation of real executions with a fault injected at every scheduling point",
+}
+
 NOT_YET: dict = {}
 
 
